@@ -9,8 +9,8 @@ from lib import frames as F
 
 D = decimal.Decimal
 ECUS = ["ECU_A", "ECU_B", "Gw", "Body", "Diag"]
-UNITS = ["", "V", "km/h", "rpm", "degC", "%"]
-TEXTS = ["plain text", "two words, comma", "100%", "a/b (c)", "x=1; y=2"]
+UNITS = ["", "V", "km/h", "rpm", "degC", "%", "\u00b0C"]
+TEXTS = ["plain text", "two words, comma", "100%", "a/b (c)", "x=1; y=2", "Gr\u00f6\u00dfe \u00fcber 5 \u00b5m"]
 # one number, several admissible renderings: (value as Decimal string, [renderings])
 NUMBERS = [("1", ["1", "1.0", "1E0", "1e+00", "+1", "1.000"]), ("0.5", ["0.5", "5E-1", "5e-01", "0.50"]),
            ("0.001", ["0.001", "1E-3", "1e-03", "1.0E-3", "0.0010"]), ("0.125", ["0.125", "1.25E-1", "125e-3"]),
@@ -79,7 +79,7 @@ def gen_signal(rng, name, nbytes, used, o):
         if not is_float and rng.random() < 0.35:
             lo, hi = (-(1 << (size - 1)), (1 << (size - 1)) - 1) if signed else (0, (1 << size) - 1)
             keys = sorted({k for k in (0, 1, 2, hi, lo) if lo <= k <= hi})[:rng.randint(1, 4)]
-            s["values"] = {str(k): rng.choice(["On", "Off", "Error state", "Init", "SNA"]) + str(i) for i, k in enumerate(keys)}
+            s["values"] = {str(k): rng.choice(["On", "Off", "Error state", "Init", "SNA", "ge\u00f6ffnet"]) + str(i) for i, k in enumerate(keys)}
         if not is_float and rng.random() < 0.4:
             lo, hi = (-(1 << (size - 1)), (1 << (size - 1)) - 1) if signed else (0, (1 << size) - 1)
             # limits at the ends of the raw range and at raw 0 as well as inside (a limit of 0 is a limit like any other)
@@ -210,7 +210,7 @@ def gen_net(rng, opts=None):
             for name, kind, par, _ in net["defs"][lvl]:
                 if rng.random() < 0.5:
                     out[name] = {"INT": rng.choice(["0", "5", "1000"]), "HEX": rng.choice(["0", "255"]), "FLOAT": rng.choice(["0.5", "12.25", "100"]),
-                                 "STRING": rng.choice(["abc", "x y", ""]), "ENUM": rng.choice(["Off", "On", "Auto"])}[kind]
+                                 "STRING": rng.choice(["abc", "x y", "", "Miller, Smith and Sons"]), "ENUM": rng.choice(["Off", "On", "Auto"])}[kind]
             return out
         net["gattrs"] = values("global")
         for e in ecus:
